@@ -404,3 +404,73 @@ pub fn rotated_skeletons(enc: Enc) -> Vec<Skeleton> {
     }
     v
 }
+
+/// Wide objects: the tiny-full contents plus a second copy of every special section (two
+/// SHT_SYMTAB / DYNSYM / DYNAMIC / HASH / GNU_HASH / GNU_VERSYM / VERNEED / VERDEF / NOTE), filler
+/// sections up to 110 section headers, and 200 PT_LOAD segments behind two PT_DYNAMIC and two
+/// PT_NOTE segments; and a section-less variant with the same program header table. Sites kept for
+/// the lattice: the file header, shdr[0], every field of the duplicated special sections' headers and
+/// of the non-PT_LOAD program headers (+ the first and last PT_LOAD).
+pub fn wide_shapes() -> Vec<Skeleton> {
+    let mut v = Vec::new();
+    for enc in ENCS {
+        for sectionless in [false, true] {
+            let (mut spec, _) = tiny_spec(enc, TableOrder::Linker);
+            let first_dup = spec.secs.len() + 1; // index of the first appended section
+            let specials = [idx::DYNSYM, idx::VERSYM, idx::VERNEED, idx::VERDEF, idx::HASH, idx::GNUHASH, idx::DYNAMIC, idx::NOTE_A, idx::SYMTAB];
+            for s in specials {
+                let mut c = spec.secs[s - 1].clone();
+                c.name.extend_from_slice(b".2");
+                c.deep.clear();
+                spec.secs.push(c);
+            }
+            let mut k = 0usize;
+            while spec.secs.len() + 2 < 110 {
+                spec.secs.push(Sec::new(format!(".fill{k}").as_bytes(), SHT_PROGBITS, vec![k as u8; 1 + k % 5]));
+                k += 1;
+            }
+            let second_dynamic = first_dup + 6;
+            let mut segs = vec![
+                Seg { p_type: PT_DYNAMIC, flags: 6, vaddr: 0, paddr: 0, align: 8, memsz_extra: 0, target: SegTarget::Section(idx::DYNAMIC) },
+                Seg { p_type: PT_NOTE, flags: 4, vaddr: 0, paddr: 0, align: 4, memsz_extra: 4, target: SegTarget::Section(idx::NOTE_A) },
+                Seg { p_type: PT_DYNAMIC, flags: 6, vaddr: 0, paddr: 0, align: 8, memsz_extra: 0, target: SegTarget::Section(second_dynamic) },
+                Seg { p_type: PT_NOTE, flags: 4, vaddr: 0, paddr: 0, align: 8, memsz_extra: 0, target: SegTarget::Section(idx::NOTE_B) },
+            ];
+            for i in 0..200u64 {
+                segs.push(Seg { p_type: PT_LOAD, flags: 5, vaddr: 0x1000 * i, paddr: 0, align: 0x1000, memsz_extra: i % 3, target: SegTarget::Range { offset: 16 * i, filesz: 16 + i % 7 } });
+            }
+            spec.segs = segs;
+            let mut b = build(&spec);
+            if sectionless {
+                // the bytes stay where they are; only the file header stops announcing the table
+                b.patch("ehdr.e_shoff", 0);
+                b.patch("ehdr.e_shnum", 0);
+                b.patch("ehdr.e_shstrndx", 0);
+            }
+            let keep = |s: &Site| -> bool {
+                if s.group == 0 || s.role.starts_with("shdr[0].") {
+                    return true;
+                }
+                if let Some(rest) = s.role.strip_prefix("phdr[") {
+                    let i: usize = rest.split(']').next().unwrap().parse().unwrap();
+                    return i < 5 || i == 203;
+                }
+                if let Some(rest) = s.role.strip_prefix("shdr[") {
+                    let i: usize = rest.split(']').next().unwrap().parse().unwrap();
+                    return !sectionless && ((i >= first_dup && i < first_dup + specials.len()) || specials.contains(&i));
+                }
+                false
+            };
+            let mut sites: Vec<Site> = b.sites.iter().filter(|s| keep(s)).cloned().collect();
+            if sectionless {
+                for st in sites.iter_mut() {
+                    if matches!(st.role.as_str(), "ehdr.e_shoff" | "ehdr.e_shnum" | "ehdr.e_shstrndx") {
+                        st.valid = 0;
+                    }
+                }
+            }
+            v.push(Skeleton { name: format!("wide/{}/{}", enc.name(), if sectionless { "section-less, 204 segments" } else { "110 sections, 204 segments" }), enc, bytes: b.bytes, sites, generated: true });
+        }
+    }
+    v
+}
